@@ -39,6 +39,11 @@ func (exec *Executor) compareItems(ctx context.Context, node ast.Node, left, rig
 	case int64, float64, json.Number:
 		switch right.(type) {
 		case int64, float64, json.Number:
+			if !parsableNumber(left) || !parsableNumber(right) {
+				// A json.Number outside the float64 range has no value to
+				// compare (compareNumeric would panic).
+				return predUnknown, nil
+			}
 			cmp = compareNumeric(left, right)
 		default:
 			return predUnknown, nil
@@ -68,6 +73,20 @@ func (exec *Executor) compareItems(ctx context.Context, node ast.Node, left, rig
 	}
 
 	return applyCompare(op, cmp)
+}
+
+// parsableNumber returns false when v is a json.Number that parses neither as
+// an int64 nor as a float64, e.g. 1e400.
+func parsableNumber(v any) bool {
+	num, ok := v.(json.Number)
+	if !ok {
+		return true
+	}
+	if _, err := num.Int64(); err == nil {
+		return true
+	}
+	_, err := num.Float64()
+	return err == nil
 }
 
 // compareBool compares two boolean values and returns 0, 1, or -1. Returns
